@@ -57,9 +57,9 @@ static Runner G;
 // ---------------------------------------------------------------------------------------------
 // families, ops
 
-enum Fam { F_PGETV, F_PGET_TYPED, F_GET, F_READX, F_READ, F_SUB, F_SUBX, F_SKIP, F_CSTR, F_LINE, F_TRUNC, F_BUFW, F_STRW, F_HISTORY, NFAM };
+enum Fam { F_PGETV, F_PGET_TYPED, F_GET, F_READX, F_READ, F_SUB, F_SUBX, F_SKIP, F_CSTR, F_LINE, F_TRUNC, F_BUFW, F_STRW, F_HISTORY, F_PAST, NFAM };
 static const char* const FAM_NAME[NFAM] = {"pgetv", "pget_typed", "get", "readx", "read", "sub", "subx", "skip", "cstr", "get_line",
-                                           "truncate", "buffer_writer", "string_writer", "history"};
+                                           "truncate", "buffer_writer", "string_writer", "history", "cursor_past_end"};
 
 enum Op {
   OP_PGETV, OP_PGET_T, OP_PGET_W1, OP_PGET_W2, OP_PGET_W3, OP_PGET_W4, OP_PGET_W6, OP_PGET_W8,
@@ -369,8 +369,12 @@ struct Subject {
   }
 };
 
+static bool g_past_stage = false;  // set inside the cursor-past-the-end child only
+
 static inline K mk(const Subject& S, int fam, int op, int acc, u64 a, u64 b, int adv) {
   K k;
+  k.past = g_past_stage;
+  k.pad_ = 0;
   k.fam = fam;
   k.op = op;
   k.acc = acc;
@@ -672,11 +676,29 @@ static void do_skip(Subject& S, u64 bytes) {
 // match: the needle equals the bytes at the cursor (when the request is in range)
 static void do_skip_if(Subject& S, u64 size, bool match) {
   u64 cur0 = S.r->where();
-  if (cur0 > S.n) return;  // not demanded after an explicit go() past the end
   K k = mk(S, F_SKIP, OP_SKIP_IF, OP_SKIP_IF, size, 0, match);
   k.req = classify(S.n, cur0, size);
   bool in = in_range(S.n, cur0, size);
   START(k, S);
+  if (cur0 > S.n) {
+    // After an explicit go() past the end the RESULT is not demanded (exception or false), but the call
+    // must not look at memory: no byte of the buffer lies at/after the cursor.  "match": the needle holds
+    // the slack byte that fills the mapped page around a guard-paged buffer, so a comparison that does read
+    // there reports a match instead of faulting.
+    u64 cap = size < 64 ? size : 64;
+    uint8_t* needle = (uint8_t*)malloc(cap);
+    memset(needle, match ? SLACK : 0x41, cap);
+    bool res = false;
+    Caught ex = guarded([&] { res = S.r->skip_if(needle, size); });
+    G.end_call();
+    free(needle);
+    if (ex.e == E_OOR) return G.hit(k, O_THROW);
+    if (ex.e != E_NONE) return G.viol(k, "skip_if threw " + ex.type + " instead of std::out_of_range");
+    if (res && size != 0)
+      return G.viol(k, "skip_if reported a match with the cursor beyond the end: it compared bytes that lie outside the buffer",
+                    fmt("where() 0x%" PRIx64 " -> 0x%" PRIx64 ", size()=%" PRIu64, cur0, (u64)S.r->where(), S.n));
+    return G.hit(k, O_EMPTY);
+  }
   u64 cap = in ? size : 16;
   uint8_t* needle = (uint8_t*)malloc(cap);
   if (in) {
@@ -842,6 +864,8 @@ static inline K mkw(const WSubject& W, int op, int acc, u64 a, u64 b, int adv) {
   k.b = b;
   k.cur0 = W.w->offset;
   k.idx = 0;
+  k.past = 0;
+  k.pad_ = 0;
   return k;
 }
 // returns true when the store succeeded as demanded
@@ -1176,6 +1200,73 @@ static void table_trunc() {
   });
 }
 
+// Cursor placed beyond the end by an explicit go(): every cursor operation must throw or return
+// something that provably touched nothing (empty clamped read, false); never a sanitizer report, a
+// guard-page fault, a pointer, a value or bytes.  Positions just past the end make a stray read hit the
+// PROT_NONE page (guard-right), the red zone (heap-exact) or the slack bytes (guard-left: wrong data /
+// a false "match"); far positions cover the wrap of cursor + size and of length - cursor.
+static vector<u64> past_positions(u64 n) {
+  set<u64> s;
+  for (u64 d : initializer_list<u64>{1, 2, 3, 4, 7, 8, 9, 15, 16, 17, 63, 64, 4095, 4096, 4097}) s.insert(n + d);
+  for (u64 x : initializer_list<u64>{2 * n + 1, 1ULL << 31, 1ULL << 32, (1ULL << 63) - 1, 1ULL << 63, (1ULL << 63) + 1, 0 - n - 2, 0 - n - 1, 0 - n})
+    if (x > n) s.insert(x);
+  for (u64 k = 1; k <= 16; k++)
+    if (0 - k > n) s.insert(0 - k);
+  return vector<u64>(s.begin(), s.end());
+}
+static vector<u64> past_sizes(u64 n, u64 cur) {
+  set<u64> s = {0, 1, 2, 3, 4, 6, 8, 16, n, n + 1, cur - n, 1ULL << 31, 1ULL << 63, (1ULL << 63) + n,
+                // cursor + size wraps to 0, 1, n-1, n, n+1; size just below/at/above "remaining()" = n - cursor (wrapped)
+                0 - cur, 0 - cur + 1, 0 - cur + n - 1, 0 - cur + n, 0 - cur + n + 1, n - cur - 1, n - cur, n - cur + 1, ~0ULL - 1, ~0ULL};
+  return vector<u64>(s.begin(), s.end());
+}
+static void table_past() {
+  g_past_stage = true;
+  for_groups(F_PAST, RKINDS, {V_PLAIN, V_ZEROS, V_LINES}, [](Subject& S) {
+    for (u64 cur : past_positions(S.n)) {
+      for (u64 size : past_sizes(S.n, cur)) {
+        for (int adv = 0; adv < 2; adv++) {
+          for (int form = 0; form < 3; form++) {
+            if (form == 2 && adv) continue;
+            S.r->go(cur);
+            do_getv(S, size, adv, form);
+          }
+          for (int form = 2; form < 4; form++) {
+            S.r->go(cur);
+            do_readx(S, form, 0, size, adv);
+            S.r->go(cur);
+            do_read(S, form, 0, size, adv);
+          }
+          S.r->go(cur);
+          do_skip_if(S, size, adv);  // adv doubles as "needle holds the slack byte"
+        }
+        S.r->go(cur);
+        do_skip(S, size);
+      }
+      for (int adv = 0; adv < 2; adv++) {
+        for (int ti = 0; ti < NTR; ti++) {
+          S.r->go(cur);
+          do_get_typed(S, ti, adv);
+        }
+        S.r->go(cur);
+        do_cstr(S, true, 0, adv);
+        S.r->go(cur);
+        do_get_line(S, adv);
+      }
+      // the constructor's offset argument is the other explicit way to get there
+      if (S.buf != B_STR) {
+        unique_ptr<StringReader> keep = std::move(S.r);
+        S.r.reset(new StringReader(S.base, S.n, cur));
+        do_skip_if(S, 4, true);
+        S.r.reset(new StringReader(S.base, S.n, cur));
+        do_get_typed(S, 11, true);
+        S.r = std::move(keep);
+      }
+    }
+  });
+  g_past_stage = false;
+}
+
 static void table_bufw() {
   g_group = (u64)F_BUFW * 5;
   for (u64 cap : buffer_lengths())
@@ -1367,6 +1458,7 @@ int main(int argc, char** argv) {
   };
   for (auto& st : stages)
     if (want(FAM_NAME[st.fam])) G.run_family(st.fam, st.body);
+  if (want("cursor_past_end")) G.run_family(F_PAST, table_past, false, true);
   if (want("history")) G.run_family(F_HISTORY, histories_body, true);
 
   G.merge_into_ctx();
